@@ -51,10 +51,15 @@ type Part struct {
 	MaxDepth    int64            `json:"max_depth,omitempty"`
 	Outcomes    map[string]int64 `json:"outcomes,omitempty"`
 	Exhaustive  bool             `json:"exhaustive"`
-	Notes       []string         `json:"notes,omitempty"`
-	Bounds      map[string]any   `json:"bounds,omitempty"`
-	Samples     []any            `json:"samples,omitempty"`
-	mu          sync.Mutex
+	// SamplingPass: a free-running pass (race detector) kept beside the enumerating parts because a
+	// cooperative scheduler cannot see unsynchronised accesses. It is never exhaustive, only ever adds
+	// findings, and is left out of the check's overall exhaustive flag (which speaks for the
+	// enumerating parts); the evidence names it.
+	SamplingPass bool           `json:"sampling_pass,omitempty"`
+	Notes        []string       `json:"notes,omitempty"`
+	Bounds       map[string]any `json:"bounds,omitempty"`
+	Samples      []any          `json:"samples,omitempty"`
+	mu           sync.Mutex
 }
 
 func (p *Part) Outcome(class string) {
@@ -94,6 +99,15 @@ func (p *Part) Bound(k string, v any) {
 	}
 	p.Bounds[k] = v
 	p.mu.Unlock()
+}
+
+// Sampling marks the part as a free-running sampling pass (see Part.SamplingPass).
+func (p *Part) Sampling(why string) {
+	p.mu.Lock()
+	p.Exhaustive = false
+	p.SamplingPass = true
+	p.mu.Unlock()
+	p.Note("sampling pass, not exhaustive: %s", why)
 }
 
 // Incomplete marks the part as not exhaustively covered (cap or deadline hit).
@@ -478,6 +492,7 @@ func mergeShard(m *Ctx, so *shardOut) {
 		} else {
 			p.Exhaustive = p.Exhaustive && sp.Exhaustive
 		}
+		p.SamplingPass = p.SamplingPass || sp.SamplingPass
 		for _, nn := range sp.Notes {
 			p.Note("%s", nn)
 		}
@@ -525,6 +540,7 @@ func finish(spec CheckSpec, c *Ctx, wall time.Duration) int {
 
 	var tot Part
 	tot.Exhaustive = true
+	var sampling []string
 	outc := map[string]int64{}
 	var samples []any
 	partsOut := map[string]*Part{}
@@ -538,7 +554,11 @@ func finish(spec CheckSpec, c *Ctx, wall time.Duration) int {
 		if p.MaxDepth > tot.MaxDepth {
 			tot.MaxDepth = p.MaxDepth
 		}
-		tot.Exhaustive = tot.Exhaustive && p.Exhaustive
+		if p.SamplingPass {
+			sampling = append(sampling, name)
+		} else {
+			tot.Exhaustive = tot.Exhaustive && p.Exhaustive
+		}
 		for k, v := range p.Outcomes {
 			outc[name+":"+k] += v
 		}
@@ -621,6 +641,9 @@ func finish(spec CheckSpec, c *Ctx, wall time.Duration) int {
 			"known_findings_reported":       nknown,
 			"harness_errors":                len(c.harness),
 		},
+	}
+	if len(sampling) > 0 {
+		ev["coverage"].(map[string]any)["sampling_passes_not_counted_in_exhaustive"] = sampling
 	}
 	if ev["assumptions"] == nil {
 		ev["assumptions"] = []string{}
